@@ -239,7 +239,8 @@ def guard_bits(f, lt=None):
     rh, sh = list(rq.headers.fields), list(rs.headers.fields)
     m = lt.upper(lt.sdec(rq.data.method))
     purl = rq.pretty_url
-    hp = lt.url_hostport(purl)
+    eurl = f"https://{purl}/" if m == "CONNECT" else purl      # exportUrl
+    hp = lt.url_hostport(eurl)
     hosts = [v for n, v in rh if n.lower() == b"host"]
     g_host = True
     if hp is not None and hosts:
@@ -261,7 +262,7 @@ def guard_bits(f, lt=None):
         if rc is None: rc = lt.senc(t)
         g_resptext = rc == body
     return {"ver": rq.data.http_version in (b"HTTP/1.1", b"HTTP/3"), "method": m != "CONNECT", "urlparse": hp is not None,
-            "url": lt.url_pretty(purl, lt.hget(rh, b"host")) == purl, "host": g_host,
+            "url": lt.url_pretty(eurl, lt.hget(rh, b"host")) == purl, "host": g_host,
             "noce": not req_ce and not resp_ce, "req_ce": req_ce, "resp_ce": resp_ce,
             "reqtext": g_reqtext, "respcl": g_respcl, "resptext": g_resptext}
 
@@ -354,8 +355,8 @@ class Check(PropertyCheck):
             "distinct = distinct case; every case is non-trivial (a full export+import).")
     has_model = True
     parallel = False
-    budget = {"quick": 1500, "thorough": 40000}
-    time_budget = {"quick": 35, "thorough": 600}
+    budget = {"quick": 1500, "thorough": 30000}
+    time_budget = {"quick": 35, "thorough": 480}
     fingerprints = ["mitmproxy.addons.savehar:SaveHar.flow_entry", "mitmproxy.addons.savehar:SaveHar.make_har",
                     "mitmproxy.addons.savehar:SaveHar.format_multidict", "mitmproxy.io.har:fix_headers",
                     "mitmproxy.io.har:request_to_flow", "mitmproxy.io.io:FlowReader.stream",
@@ -425,7 +426,7 @@ class Check(PropertyCheck):
 
     # ------------------------------------------------------------------ generator
     HOSTS = ["example.com"] * 4 + ["a.example.org"] * 3 + ["192.0.2.7"] * 3 + ["localhost"] * 3 + ["xn--bcher-kva.example"]
-    PATHS = [b"/", b"/index.html", b"/a/b?x=1&y=2", b"/q?x=%C3%A9", b"/s%20p", b"/p;v=1?q#f", b"*", b"/\xc3\xa9"]
+    PATHS = [b"/", b"/index.html", b"/a/b?x=1&y=2", b"/q?x=%C3%A9", b"/s%20p", b"/p;v=1?q#f", b"*"] * 3 + [b"/\xc3\xa9"]
     CTS = [b"text/plain", b"text/plain; charset=utf-8", b"text/plain; charset=latin-1", b"text/html", b"application/json",
            b"application/octet-stream", b"image/png", b"text/css", b"application/x-www-form-urlencoded",
            b"text/plain; charset=utf-16", b"text/plain; charset=bogus", b"text/html; charset=gbk", b"application/xml",
